@@ -86,19 +86,13 @@ def jax_run(fn: Any, xs: Sequence[np.ndarray], params: dict | None, x64: bool) -
     import jax
     import jax.numpy as jnp
 
-    prev = bool(jax.config.jax_enable_x64)
-    if prev != x64:
-        jax.config.update("jax_enable_x64", x64)
-    try:
+    with jax.enable_x64(bool(x64)):  # scoped: never touches the process-wide flag
         kw = {}
         for k, v in (params or {}).items():
             kw[k] = jnp.asarray(v) if isinstance(v, (np.ndarray, list, tuple)) else v
         res = fn(*[jnp.asarray(x) for x in xs], **kw)
         flat, _ = jax.tree_util.tree_flatten(jax.device_get(res))
         return [np.asarray(v) for v in flat]
-    finally:
-        if prev != x64:
-            jax.config.update("jax_enable_x64", prev)
 
 
 def compare(
